@@ -316,3 +316,18 @@ Qed.
 Example ex_traversal_star :
   glob_match [47;115;47;42] [47;115;47;120;47;46;46;47;46;46;47;101] (* /s/* vs /s/x/../../e *) = GOk false.
 Proof. reflexivity. Qed.
+
+(** The typical configuration "dir/*": if that is the only pattern, whatever
+    is opened lies directly inside [dir] -- for every spelling of the location. *)
+Theorem dir_star_only d loc p :
+  forallb is_lit d = true ->
+  reader [d ++ [sep; c_star]] loc = OpenFile p ->
+  exists x, p = d ++ sep :: x /\ mem sep x = false /\ p = clean loc.
+Proof.
+  intros Hd H. apply reader_open in H as (_ & Hc & (g & [<-|[]] & Hm)).
+  destruct (glob_dir_star _ _ Hd Hm) as (x & Hx & Hs). exists x. auto.
+Qed.
+
+Example ex_dir_star_premise : forallb is_lit [47;115] = true /\
+  reader [[47;115] ++ [sep; c_star]] ex_loc_in = OpenFile [47;115;47;97].
+Proof. split; reflexivity. Qed.
